@@ -248,6 +248,7 @@ def excluded_ids(root, fl):
 
 
 class Faults(SubCheck):
+    case_cpu_limit = 60.0
     def __init__(self, svg, name, cases):
         self.svg = svg
         self.name = name
